@@ -340,6 +340,10 @@ func scenarioTruncate(seed int64, idx int) ScenarioOut {
 				}
 			}
 			// later transfers validate against the same funds: spend (almost) everything a wallet holds, then one unit more
+			// a dormant wallet (everything it ever received is checkpointed, nothing of it in the live history): its balance is its checkpoint
+			if round == 0 {
+				n.balance(drainer.Address(), -1)
+			}
 			// the drainer spends exactly everything once, after the first truncation, and is never paid again
 			if have := get(drainer.Address()); round == 0 && have.Sign() > 0 {
 				q, m := new(big.Int).QuoRem(have, e18big, new(big.Int))
@@ -395,6 +399,16 @@ func scenarioTruncate(seed int64, idx int) ScenarioOut {
 				n.violate("C14", "truncated-source-not-loadable", fmt.Sprintf("a peer that has truncated streams %d vertices whose cut vertex declares checkpointed parents: LoadDag refuses, checkpointed funds are not transferred", len(stream)))
 			}
 			s.nodes = append(s.nodes, dst)
+		}
+		if round == 1 && terr == nil {
+			// the drained wallet offers its old funds again: must never be confirmed (C02 over checkpoint + live)
+			tr := craftTrx(drainer, s.recvRich.Address(), "drain-again", nil, spice.Melange{Currency: 3, SupplementaryCurrency: 7}, s.now())
+			n.create(&tr, -1)
+			for k := 0; k < 3; k++ {
+				tf := craftTrx(s.recvRich, s.users[1].Address(), fmt.Sprintf("after-drain-again-%d", k), nil, spice.Melange{SupplementaryCurrency: 3}, s.now())
+				n.create(&tf, -1)
+			}
+			n.balance(drainer.Address(), -1)
 		}
 		roundTraces = append(roundTraces, fmt.Sprintf("(Trace %d (Some %s) %s)", w.A(n.signer.Address()), initL, coqList(n.steps)))
 		roundOps = append(roundOps, n.ops)
